@@ -17,7 +17,9 @@ out+=['','Seeded changes written by independent sub-agents that saw only the pro
 for d in sorted(glob.glob(f'{V}/seeded/*/')):
     m=json.load(open(d+'meta.json'))
     c=' '.join(m.get('caught_by') or []) or 'NOT CAUGHT'
+    if m.get('neutralised'): c='no longer a violation: '+m['neutralised']
     if m.get('note'): c+=f" ({m['note']})"
+    if m.get('rebased'): c+=' (patch re-made on the repaired tree)'
     out.append(f"| {os.path.basename(d[:-1])} | {m.get('needs','')} | {c} |")
 s=open(f'{V}/DESIGN.md').read()
 a=s.index('<!-- CATCHTABLE BEGIN -->')+len('<!-- CATCHTABLE BEGIN -->')
